@@ -464,13 +464,21 @@ pub fn run_batch<W: World>(world: &W, cfg: &BatchConfig) -> BatchStats {
     }
 }
 
+/// Violation class without the incidental detail after " in=" (which part of two compared
+/// digests differs first). Code under test that is not a function of the seed (e.g. a generator
+/// seeded from OS entropy) makes that detail, and the numbers in a message, vary from execution to
+/// execution; the violation that must reproduce is the class up to that detail.
+pub fn class_key(class: &str) -> &str {
+    class.split(" in=").next().unwrap_or(class)
+}
+
 fn violates_same<W: World>(world: &W, case: &W::Case, class: &str) -> Option<(Violation, W::Case)> {
     watchdog::enter();
     let r = guarded(|| world.execute(case));
     watchdog::leave();
     match r {
         Ok(out) => match out.violation {
-            Some((v, c)) if v.class == class => Some((v, c)),
+            Some((v, c)) if class_key(&v.class) == class_key(class) => Some((v, c)),
             _ => None,
         },
         Err(_) => None,
@@ -534,7 +542,12 @@ fn report_violation<W: World>(
     }
     // replay from the file: it must reproduce exactly
     let reproduced = match replay_text::<W>(world, &text) {
-        Ok(Some(v2)) => v2 == cur_v,
+        Ok(Some(v2)) => {
+            if v2 != cur_v && class_key(&v2.class) == class_key(&cur_v.class) {
+                eprintln!("note: the replay reproduces the violation class but not its details (recorded: {:?}; replayed: {:?}) - the code under test is not a function of the seed here", cur_v.message, v2.message);
+            }
+            class_key(&v2.class) == class_key(&cur_v.class)
+        }
         _ => false,
     };
     ReportedViolation {
